@@ -295,5 +295,5 @@ package keeper
 // ---- C02/C14: the only writer of the parameter record stores validated parameters only --------------------------
 //@ func (k Keeper) SetParams
 //@ modifies Store_oracle
-//@ ensures err == nil ==> Store_oracle == store(old(Store_oracle), types.ParamsKeyPrefix, enc(p)) && p.OracleRewardPercentage <= 100
+//@ ensures err == nil ==> Store_oracle == store(old(Store_oracle), types.ParamsKeyPrefix, enc(p)) && p.OracleRewardPercentage <= 100 && 1 <= p.SamplingTryCount && p.SamplingTryCount <= MaxInt64
 //@ ensures err != nil ==> Store_oracle == old(Store_oracle)
